@@ -6,6 +6,12 @@
      integro  IntegroPINNCondition     condition.py            residual also receives the integral point set and the model on it
      ritz     DeepRitzCondition        condition.py            plain mean of the integrand
      param    ParameterCondition       condition.py            the penalty of the parameter, as is
+     hpms     HPM_EquationLoss_at_Sampler    condition.py      residual receives coordinates, the learnable parameter and data functions
+                                                               (NO model output); loss = mean over the rows of sum_c res^2
+     hpmd     HPM_EquationLoss_at_DataPoints condition.py      the same on the input points of a data loader, batch by batch:
+                                                               a_b = mean over batch b of res^2; one evaluation sees batch
+                                                               (k mod B) and returns a_b^norm (a_b for norm inf); with
+                                                               use_full_dataset  (sum_b a_b^norm / B) resp. max_b a_b; then the root
    Input functions are  fn_k(s) = FnA(k) s + FnB(k),  k in 1..5.   A FUNCTION SET is a cyclic list of draws (each a list
    of function ids) with the training-time sampling rule of DeepONet._forward_branch:
         a condition evaluated with iteration number `it` draws a NEW batch of functions iff `it` differs from the iteration
@@ -75,6 +81,27 @@ IntRes(c, r) ==
 IntNeeds(res) == CASE res = "int" -> {"u", "u_integral", "g"} [] res = "intvec" -> {"u", "u_integral", "x", "t"} [] res = "intx" -> {"u", "u_integral", "x_integral"}
                    [] res = "intdx" -> {"u", "u_integral", "x_integral"} [] res = "intdt" -> {"u", "u_integral", "t"}
 IntLossTimesN(c) == SumS([r \in DOMAIN c.rows |-> LET v == IntRes(c, r) IN SumS([k \in DOMAIN v |-> v[k] * v[k]])])
+\* hpms: residual  kappa x + 3 t - g(t);  hpmd: residual  kappa x - t  on batches of bs consecutive rows
+HpmSRes(c, r) == c.k * c.rows[r][1] + 3 * c.rows[r][2] - G(c, c.rows[r][2])
+HpmSTimesN(c) == SumS([r \in DOMAIN c.rows |-> HpmSRes(c, r) * HpmSRes(c, r)])
+HpmDRes(c, r) == c.k * c.rows[r][1] - c.rows[r][2]
+HpmNB(c) == (Len(c.rows) + c.bs - 1) \div c.bs
+HpmBatch(c, b) == {r \in DOMAIN c.rows : (r - 1) \div c.bs = b - 1}
+\* a_b as a rational <<sum of squares, batch size>>
+HpmA(c, b) == <<SumS([r \in 1..Len(c.rows) |-> IF r \in HpmBatch(c, b) THEN HpmDRes(c, r) * HpmDRes(c, r) ELSE 0]), Cardinality(HpmBatch(c, b))>>
+RPow(q, n) == <<Pow(q[1], n), Pow(q[2], n)>>
+RAdd(p, q) == <<p[1] * q[2] + q[1] * p[2], p[2] * q[2]>>
+RLess(p, q) == p[1] * q[2] < q[1] * p[2]
+RECURSIVE RSum(_)
+RSum(s) == IF Len(s) = 1 THEN s[1] ELSE RAdd(s[1], RSum(Tail(s)))
+RECURSIVE RMax(_)
+RMax(s) == IF Len(s) = 1 THEN s[1] ELSE LET m == RMax(Tail(s)) IN IF RLess(s[1], m) THEN m ELSE s[1]
+\* value before the root, as a rational; k = number of this evaluation of the condition (1, 2, ...)
+HpmDValue(c, k) ==
+    LET B == HpmNB(c) IN
+    IF c.full THEN (IF c.norm = 0 THEN RMax([b \in 1..B |-> HpmA(c, b)])
+                    ELSE LET t == RSum([b \in 1..B |-> RPow(HpmA(c, b), c.norm)]) IN <<t[1], t[2] * B>>)
+    ELSE LET a == HpmA(c, ((k - 1) % B) + 1) IN IF c.norm = 0 THEN a ELSE RPow(a, c.norm)
 \* ritz: integrand  u^2 - g;  param: penalty (kappa - 3)^2
 RitzTimesN(c) == SumS([r \in DOMAIN c.rows |-> UA(c, c.rows[r][1], c.rows[r][2]) * UA(c, c.rows[r][1], c.rows[r][2]) - G(c, c.rows[r][2])])
 =============================================================================
